@@ -45,7 +45,8 @@ def dest_op(rng, kind, alloc, nimg):
             else:
                 toks.append("S%d" % (total + rng.randint(1, 700)))
         else:
-            toks.append("Sreuse")
+            # the size handed back with a re-used buffer is documented as ignored: sometimes hand back 0
+            toks.append("Sreuse0" if rng.random() < .25 else "Sreuse")
         first = False
         left = total
         while left > 0:
